@@ -352,6 +352,7 @@ class ModelCfg:
     max_inters: int = 6
     max_comps: int = 3
     min_comps: int = 1
+    allow_no_params: bool = False   # now and then a model without parameters (opt-in: not every suite's edits cope)
     depth: int = 3
     p_unused_inter: float = 0.25
     p_param_expr: float = 0.2
@@ -423,7 +424,7 @@ def gen_model(rng: random.Random, cfg: ModelCfg | None = None) -> GModel:
             n = name("s")
         m.states[n] = (gen_value(rng, cfg), rng.choice(comps))
     # now and then a model without parameters (templates have to cope with empty lists)
-    for k in range(rng.randint(0 if rng.random() < 0.12 else 1, cfg.max_params)):
+    for k in range(rng.randint(0 if (cfg.allow_no_params and rng.random() < 0.15) else 1, cfg.max_params)):
         if rng.random() < cfg.p_prefix_names / 2:
             n = related(rng.choice(list(m.states) + list(m.params)))
         else:
